@@ -393,20 +393,45 @@ def rule_p9(F):
                       "`{{` / `}}` are collapsed in the text that %s returned: a brace produced by an escape sequence is indistinguishable from a written one there, so "
                       "`f\"\\u{7b}\\u{7b}\"` evaluates to `{` instead of `{{`" % name)
         else:
-            bools = [p_.get("local") for p_ in b.hir.get("params", []) if p_.get("k") == "bind" and p_.get("ty") == "bool"]
-            uses_flag = False
-            for n, anc in hir.walk_ctx(b.hir["value"]):
-                if n.get("k") == "bin" and n.get("op") == "==" and any(hir.strip(x).get("v") == "{" for x in (n["a"], n["b"])):
-                    tops = [a_ for a_ in anc if a_.get("k") in ("bin", "if", "letstmt")] + [n]
-                    scope = tops[0] if tops else n
-                    for a_ in anc[::-1]:
-                        if a_.get("k") == "bin" and a_.get("op") in ("&&", "||"):
-                            scope = a_
-                        elif a_.get("k") in ("letstmt", "if", "block"):
-                            break
-                    uses_flag = uses_flag or any(x.get("k") == "path" and hir.res_local(x) in bools for x in hir.walk(scope))
-            r.inst("collapse per character in %s" % hir.last(b.path.split("::{closure")[0]), {"fn": b.path, "literal_flag_parameters": len(bools), "brace_test_depends_on_literal_flag": uses_flag})
-            if not uses_flag:
+            # evaluate the per-character closure on the five cases that matter (finite-domain evaluation, vf/symex.py): a brace pairs
+            # up with the pending one only if it was written literally and is the same brace
+            from .. import symex
+            params = [p_ for p_ in b.hir.get("params", []) if p_.get("k") == "bind"]
+            pbool = [p_["local"] for p_ in params if p_.get("ty") == "bool"]
+            pchar = [p_["local"] for p_ in params if p_.get("ty") == "char"]
+            bound = {x.get("local") for x in hir.walk(b.hir) if x.get("k") == "bind"}
+            state = set()
+            for x in hir.walk(b.hir["value"]):
+                if x.get("k") in ("assign", "assignop"):
+                    l = hir.res_local(hir.peel_refs(hir.strip(x["lhs"])))
+                    if l is not None and l not in bound:
+                        state.add(l)
+            uses_flag = None
+            table = {}
+            if len(pbool) == 1 and len(pchar) == 1 and len(state) == 1:
+                st_l = list(state)[0]
+                cases = [(True, "{", symex.ctor("Some", "{"), False), (False, "{", symex.ctor("Some", "{"), True), (True, "{", "None", True),
+                         (True, "}", symex.ctor("Some", "{"), True), (True, "a", symex.ctor("Some", "{"), True)]
+                uses_flag = True
+                for lit_, ch_, pend_, want_push in cases:
+                    try:
+                        m = symex.Machine(b.hir, {pbool[0]: lit_, pchar[0]: ch_, st_l: pend_})
+                        for p_ in params:
+                            if p_["local"] not in m.env:
+                                m.env[p_["local"]] = symex.Sym(p_.get("name") or "p")
+                        m.run()
+                        pushed = any(e[0] == "mcall" and e[1] in ("push", "push_str", "extend") for e in m.events)
+                    except symex.Unknown as e:
+                        uses_flag = None
+                        r.missing("an evaluable per-character brace collapse in %s (%s)" % (hir.last(b.path.split("::{closure")[0]), e))
+                        break
+                    table["literal=%s char=%s pending=%s" % (lit_, ch_, "Some({)" if pend_ != "None" else "None")] = "pushed" if pushed else "skipped"
+                    if pushed != want_push:
+                        uses_flag = False
+            else:
+                r.missing("the (literal, char) parameters and the pending-brace state of the collapse closure in %s" % hir.last(b.path.split("::{closure")[0]))
+            r.inst("collapse per character in %s" % hir.last(b.path.split("::{closure")[0]), {"fn": b.path, "table": table, "pairs_only_literal_braces": uses_flag})
+            if uses_flag is False:
                 r.bad(b.path.split("::{closure")[0], "brace pairing ignores whether the brace was written literally", relfile(b.file), c.get("line"),
                       "the per-character collapse pairs up braces without asking whether they were written literally or produced by an escape sequence")
     return r
@@ -686,54 +711,80 @@ def rule_p8(F):
     literal and never escapes the next one (`"C:\\"` ends at its last quote); an unescaped quote ends it; an unescaped backslash
     escapes exactly the next character."""
     from .. import symex
-    r = RuleResult("C09.P8", "string / char literal scanners: the escape state follows the grammar's transition table for every (state, character class)", floor=2)
-    n = 0
+    r = RuleResult("C09.P8", "string / char literal scanners: the escape state follows the grammar's transition table for every (state, character class)", floor=1)
+    verified = set()   # enclosing functions that contain a scanner closure with the right table
+    for cb in F.bodies_in(["src/parser/lexer.rs"]):
+        if cb.def_kind != "Closure" or not cb.hir or "::tests::" in cb.path:
+            continue
+        params = cb.hir.get("params", [])
+        if len(params) != 1:
+            continue
+        pb = [x for x in hir.walk(params[0]) if x.get("k") == "bind"]
+        if len(pb) != 1 or "char" not in str(params[0].get("ty") or pb[0].get("ty") or ""):
+            continue
+        bound = {x.get("local") for x in hir.walk(cb.hir) if x.get("k") == "bind"}
+        flags, free = set(), {}
+        for x in hir.walk(cb.hir["value"]):
+            if x.get("k") in ("assign", "assignop"):
+                l = hir.res_local(hir.peel_refs(hir.strip(x["lhs"])))
+                if l is not None and l not in bound:
+                    flags.add(l)
+            if x.get("k") == "path" and hir.res_local(x) is not None and hir.res_local(x) not in bound:
+                free[hir.res_local(x)] = x.get("ty")
+        chars = {x.get("v") for x in hir.walk(cb.hir["value"]) if x.get("k") in ("lit", "plit") and (x.get("ty") == "char" or x.get("lk") == "char")}
+        if len(flags) != 1 or "\\" not in chars:
+            continue  # not an escape scanner
+        flag = list(flags)[0]
+        quotes = [c for c in chars if c != "\\"]
+        captured_quote = [l for l, ty in free.items() if l != flag and "char" in str(ty)]
+        env0 = {}
+        if len(quotes) == 1 and not captured_quote:
+            q = quotes[0]
+        elif not quotes and len(captured_quote) == 1:
+            q = '"'
+            env0[captured_quote[0]] = q   # the quote is a parameter of the enclosing helper: any character other than a backslash
+        else:
+            r.missing("the terminating character of the scanner closure %s" % cb.path)
+            continue
+        owner = cb.path.split("::{closure")[0]
+        expected = {(True, q): (False, False), (True, "\\"): (False, False), (True, "a"): (False, False),
+                    (False, q): (True, None), (False, "\\"): (False, True), (False, "a"): (False, False)}
+        rows, bad, unknown = {}, [], None
+        for (st, ch), (eret, eflag) in expected.items():
+            try:
+                env = dict(env0)
+                env[flag] = st
+                env[pb[0]["local"]] = ch
+                m = symex.Machine(cb.hir, env)
+                ret = m.run()
+                got = (ret, m.env.get(flag))
+            except symex.Unknown as e:
+                unknown = str(e)
+                break
+            cls = {q: "quote", "\\": "backslash"}.get(ch, "other")
+            rows["escaped=%s, %s" % (st, cls)] = {"ends": got[0], "escaped_next": got[1]}
+            if got[0] != eret or (eflag is not None and got[1] != eflag):
+                bad.append("state escaped=%s, character %s: ends=%s escaped_next=%s (grammar: ends=%s escaped_next=%s)" % (st, cls, got[0], got[1], eret, eflag))
+        if unknown is not None:
+            r.missing("an evaluable scanner closure in %s (%s)" % (hir.last(owner), unknown))
+            continue
+        r.inst("%s scanner" % hir.last(owner), {"closure": cb.path, "quote": "captured" if env0 else q, "table": rows})
+        if bad:
+            r.bad(owner, "escape transition table", relfile(cb.file), cb.line,
+                  "the scanner of quoted literals in %s deviates from the grammar: %s - a literal that ends in an escaped backslash does not end at its closing quote (or an escaped quote ends it)" % (hir.last(owner), "; ".join(bad)))
+        else:
+            verified.add(owner)
+    # both literal kinds go through a scanner (their own closure, or a shared helper they call)
     for fn in ("string", "char"):
-        ps = [p for p in F.paths() if "parser::lexer::Lexer" in p and p.split("::{closure")[0].endswith("::" + fn) and "{closure" in p]
+        ps = [p for p in F.paths() if "parser::lexer::Lexer" in p and p.endswith("::" + fn)]
+        ok = False
         for p in ps:
-            cb = F.body(p)
-            if cb is None or not cb.hir:
-                continue
-            params = [x for x in cb.hir.get("params", []) if x.get("k") == "bind"]
-            if len(params) != 1 or "char" not in (params[0].get("ty") or ""):
-                continue
-            # the captured state: a bool local that is assigned in the closure but bound outside it
-            bound = {x.get("local") for x in hir.walk(cb.hir) if x.get("k") == "bind"}
-            flags = set()
-            for x in hir.walk(cb.hir["value"]):
-                if x.get("k") in ("assign", "assignop"):
-                    l = hir.res_local(hir.peel_refs(hir.strip(x["lhs"])))
-                    if l is not None and l not in bound:
-                        flags.add(l)
-            chars = {x.get("v") for x in hir.walk(cb.hir["value"]) if x.get("k") in ("lit", "plit") and (x.get("ty") == "char" or x.get("lk") == "char")}
-            quotes = [c for c in chars if c != "\\"]
-            if len(flags) != 1 or "\\" not in chars or len(quotes) != 1:
-                r.missing("escape state and the two special characters in the scanner closure of Lexer::%s (state vars %d, chars %s)" % (fn, len(flags), sorted(map(str, chars))))
-                continue
-            flag, q = list(flags)[0], quotes[0]
-            n += 1
-            expected = {(True, q): (False, False), (True, "\\"): (False, False), (True, "a"): (False, False),
-                        (False, q): (True, None), (False, "\\"): (False, True), (False, "a"): (False, False)}
-            rows = {}
-            bad = []
-            for (st, ch), (eret, eflag) in expected.items():
-                try:
-                    m = symex.Machine(cb.hir, {flag: st, params[0]["local"]: ch})
-                    ret = m.run()
-                    got = (ret, m.env.get(flag))
-                except symex.Unknown as e:
-                    r.missing("an evaluable scanner closure in Lexer::%s (%s)" % (fn, e))
-                    got = None
-                    break
-                rows["escaped=%s, %s" % (st, {q: "quote", "\\": "backslash"}.get(ch, "other"))] = {"ends": got[0], "escaped_next": got[1]}
-                if got[0] != eret or (eflag is not None and got[1] != eflag):
-                    bad.append("state escaped=%s, character %s: ends=%s escaped_next=%s (grammar: ends=%s escaped_next=%s)" % (st, {q: "quote", "\\": "backslash"}.get(ch, "other"), got[0], got[1], eret, eflag))
-            r.inst("Lexer::%s scanner" % fn, {"closure": p, "table": rows})
-            if bad:
-                r.bad(p.split("::{closure")[0], "escape transition table", relfile(cb.file), cb.line,
-                      "the scanner of %s literals deviates from the grammar: %s - a literal that ends in an escaped backslash does not end at its closing quote (or an escaped quote ends it)" % (fn, "; ".join(bad)))
-    if n < 2:
-        r.missing("the scanner closures of Lexer::string and Lexer::char (found %d)" % n)
+            fb = F.body(p)
+            if p in verified or (fb is not None and fb.mir and any(mir.callee(t) in verified for _, t in mir.calls(fb))):
+                ok = True
+        r.inst("Lexer::%s reaches a scanner" % fn, {"ok": ok})
+        if not ok and not r.violations:
+            r.missing("the escape scanner used by Lexer::%s" % fn)
     return r
 
 
